@@ -634,6 +634,48 @@ pub fn run_single(
     )]
 }
 
+/// Re-runs, in one fresh process, every case that worker `idx % workers` of a sweep over
+/// `workers` processes executes up to and including `idx`, and returns the violations of `idx`:
+/// the confirmation of a violation that depends on what ran earlier in the same process.
+pub fn run_prefix(
+    exe: &Path,
+    child_args: &[String],
+    idx: usize,
+    workers: usize,
+    crash_violation: &(dyn Fn(usize, String, String) -> Violation + Sync),
+) -> Vec<Violation> {
+    let workers = workers.max(1);
+    let out = Command::new(exe)
+        .args(child_args)
+        .arg("--child")
+        .arg(format!("{}/{}/0/{}", idx % workers, workers, idx / workers + 1))
+        .stdin(Stdio::null())
+        .output()
+        .unwrap_or_else(|e| machinery_error(&format!("spawn child: {}", e)));
+    let text = String::from_utf8_lossy(&out.stdout);
+    let mut last_started = None;
+    for line in text.lines() {
+        if let Some(rest) = line.strip_prefix("S ") {
+            last_started = rest.trim().parse::<usize>().ok();
+        }
+        if let Some(rest) = line.strip_prefix("R ") {
+            let (i, js) = rest.split_once(' ').unwrap_or((rest, "{}"));
+            if i.parse::<usize>().ok() == Some(idx) {
+                let v: Value = serde_json::from_str(js).unwrap_or(Value::Null);
+                return CaseOutcome::from_json(&v).violations;
+            }
+        }
+    }
+    if last_started == Some(idx) {
+        return vec![crash_violation(
+            idx,
+            format!("{}", out.status),
+            String::from_utf8_lossy(&out.stderr).lines().rev().take(20).collect::<Vec<_>>().join(" | "),
+        )];
+    }
+    Vec::new()
+}
+
 /// Silences panic messages (the engines provoke thousands of expected panics) while keeping the
 /// last message available for diagnostics.
 pub fn quiet_panics() {
